@@ -59,6 +59,11 @@ type Multiplexer struct {
 	// streams maps stream identifiers to their corresponding local stream
 	// objects. Stream objects perform their own deregistration when closed.
 	streams map[uint64]*Stream
+	// openOrder is a semaphore that serializes outbound stream identifier
+	// allocation together with queuing of the corresponding open message, so
+	// that open messages reach the remote in identifier order (which the
+	// remote's reader enforces).
+	openOrder chan struct{}
 	// pendingInboundStreamIdentifiers is the backlog of pending inbound stream
 	// identifiers waiting to be accepted. It is written to only by the reader
 	// Goroutine. It has a capacity equal to the accept backlog size.
@@ -125,6 +130,7 @@ func Multiplex(carrier Carrier, even bool, configuration *Configuration) *Multip
 		closer:                          carrier,
 		closed:                          make(chan struct{}),
 		streams:                         make(map[uint64]*Stream),
+		openOrder:                       make(chan struct{}, 1),
 		pendingInboundStreamIdentifiers: make(chan uint64, configuration.AcceptBacklog),
 		writeBufferAvailable:            make(chan *messageBuffer, configuration.WriteBufferCount),
 		writeBufferPending:              make(chan *messageBuffer, configuration.WriteBufferCount),
@@ -585,6 +591,27 @@ func (m *Multiplexer) Addr() net.Addr {
 // context must not be nil. The context only regulates the lifetime of the open
 // operation, not the stream itself.
 func (m *Multiplexer) OpenStream(ctx context.Context) (*Stream, error) {
+	// Acquire the open ordering semaphore and hold it until the open message
+	// has been queued (or the operation has failed). Without this, concurrent
+	// open operations could queue their open messages in an order different
+	// from the order in which their identifiers were allocated, which the
+	// remote treats as a protocol violation.
+	select {
+	case m.openOrder <- struct{}{}:
+	case <-ctx.Done():
+		return nil, context.Canceled
+	case <-m.closed:
+		return nil, ErrMultiplexerClosed
+	}
+	var openOrderReleased bool
+	releaseOpenOrder := func() {
+		if !openOrderReleased {
+			openOrderReleased = true
+			<-m.openOrder
+		}
+	}
+	defer releaseOpenOrder()
+
 	// Create and register the local side of the stream. If we've already
 	// exhausted local stream identifiers, then we can't open a new stream.
 	m.streamLock.Lock()
@@ -617,6 +644,7 @@ func (m *Multiplexer) OpenStream(ctx context.Context) (*Stream, error) {
 		writeBuffer.encodeOpenMessage(stream.identifier, uint64(m.configuration.StreamReceiveWindow))
 		m.writeBufferPending <- writeBuffer
 		sentOpenMessage = true
+		releaseOpenOrder()
 	case <-ctx.Done():
 		return nil, context.Canceled
 	case <-m.closed:
